@@ -712,7 +712,8 @@ def guarded(fn, line, hout, *args):
 # S = 0.01 I: det = 1e-340 -> 0), and the log-density comes out +inf / -inf instead of a finite number (the density inf / 0 where
 # the exact value is representable).  The real-arithmetic model has no such range, so this is a floating-point defect outside the
 # model: recorded under coverage.candidate_findings, turned into a violation with the stable key below once decided.
-DET_RANGE_IS_VIOLATION = False
+# Repaired by fix 52d64dd (log det S from the LU pivots); the probes stay and alarm if the behaviour returns.
+DET_RANGE_IS_VIOLATION = True
 DET_RANGE_KEY = "density-determinant-out-of-double-range"
 
 
